@@ -15,7 +15,7 @@ from concurrent.futures import ThreadPoolExecutor, as_completed
 from typing import TYPE_CHECKING
 
 from happysimulator.core.event import Event
-from happysimulator.core.temporal import Instant
+from happysimulator.core.temporal import Duration, Instant
 from happysimulator.parallel.summary import ParallelSimulationSummary
 
 if TYPE_CHECKING:
@@ -222,9 +222,16 @@ class WindowedCoordinator:
                     sampled = link.latency.sample()
                     event.time = send_time + sampled
                 else:
-                    # Validate min_latency
-                    delay = (event.time - send_time).to_seconds()
-                    if delay < link.min_latency - 1e-12:
+                    # Validate min_latency.  Compare in integer nanoseconds, with
+                    # the declared minimum converted exactly like a delay given in
+                    # float seconds (``now + min_latency``, ``Duration.from_seconds``):
+                    # for values such as 0.0157 s that conversion truncates to
+                    # 15_699_999 ns, and a sender using the very float it declared
+                    # on the link must not be rejected.  The window is sized by the
+                    # same conversion, so the delay still covers a whole window.
+                    delay_ns = (event.time - send_time).nanoseconds
+                    delay = delay_ns / 1_000_000_000
+                    if delay_ns < Duration.from_seconds(link.min_latency).nanoseconds:
                         raise RuntimeError(
                             f"Cross-partition event violates min_latency: "
                             f"delay={delay:.6f}s < min_latency={link.min_latency}s "
